@@ -138,7 +138,8 @@ func genUsers(r *sim.Rng, n int, odd bool) []GUser {
 		if !odd {
 			name = []string{"alice", "bob", "carol.smith", "root"}[i%4]
 		}
-		dirs := []string{"pub", "pub", "pub", "pub_commented", "bare", "both_same", "both_diff", "none", "unparsable", "empty", "dir"}
+		dirs := []string{"pub", "pub", "pub", "pub_commented", "bare", "both_same", "both_diff", "none", "unparsable", "empty", "dir",
+			"pub_symlink", "pub_dangling", "pub_dangling_bare", "pub_loop", "pub_loop_bare", "bare_loop"}
 		us = append(us, GUser{Name: name, KeyKind: pick(r, []string{"ed25519", "ed25519", "ecdsa256", "rsa2048"}), Dir: pick(r, dirs)})
 	}
 	// the first user is usually fully registered so that honest runs can succeed
